@@ -248,16 +248,35 @@ proof fn pop_step<M: Model>(m: M, g: Gen, st: StMap<M::State>, pth: PthMap<M::St
         overflow_ok(p.drop_last(), b),
         p.last().3.get() + b < usize::MAX,
 {
-    reveal(gen_inv); reveal(pend_inv); reveal(queue_ok); reveal(span_ok); reveal(eval_order_ok); reveal(ev_below); reveal(overflow_ok);
+    pop_pend_part(m, g, st, pth, p);
+    pop_queue_part(p);
+    pop_order_part(ev, p);
+    pop_overflow_part(p, b);
+}
+// the four parts of pop_step, one per group of predicates (each reveals only what it needs)
+proof fn pop_pend_part<M: Model>(m: M, g: Gen, st: StMap<M::State>, pth: PthMap<M::State>, p: Seq<Job<M::State>>)
+    requires p.len() > 0, gen_inv(m, g, st, pth), pend_inv(m, g, st, pth, p)
+    ensures job_ok(m, g, st, pth, p.last()), key_ok(m, g, st, pth, p.last().1), pend_inv(m, g, st, pth, p.drop_last())
+{
+    reveal(pend_inv);
     let q = p.drop_last();
-    let job = p.last();
-    assert(job == p[p.len() - 1]);
-    assert(job_ok(m, g, st, pth, job));
+    assert(p.last() == p[p.len() - 1]);
+    assert(job_ok(m, g, st, pth, p[p.len() - 1]));
+    gen_inv_key(m, g, st, pth, p.last().1);
     assert forall|j: int| 0 <= j < q.len() implies job_ok(m, g, st, pth, #[trigger] q[j]) by { assert(q[j] == p[j]); }
+}
+proof fn pop_queue_part<S>(p: Seq<Job<S>>)
+    requires p.len() > 0, queue_ok(p)
+    ensures queue_ok(p.drop_last()), span_ok(p.drop_last(), p.last().3.get() as int)
+{
+    reveal(queue_ok); reveal(span_ok);
+    let q = p.drop_last();
+    let dd = p[p.len() - 1].3.get();
+    assert(p.last() == p[p.len() - 1]);
     assert forall|a: int, c: int| 0 <= a <= c < q.len() implies (#[trigger] q[a]).3.get() >= (#[trigger] q[c]).3.get() by {
         assert(q[a] == p[a] && q[c] == p[c]);
     }
-    assert forall|j: int| 0 <= j < q.len() implies job.3.get() <= (#[trigger] q[j]).3.get() <= job.3.get() + 1 by {
+    assert forall|j: int| 0 <= j < q.len() implies dd <= (#[trigger] q[j]).3.get() <= dd + 1 by {
         assert(q[j] == p[j]);
         assert(p[0].3.get() >= p[j].3.get());
         assert(p[j].3.get() >= p[p.len() - 1].3.get());
@@ -267,9 +286,27 @@ proof fn pop_step<M: Model>(m: M, g: Gen, st: StMap<M::State>, pth: PthMap<M::St
         assert(q[q.len() - 1] == p[q.len() - 1]);
         assert(p[q.len() - 1].3.get() >= p[p.len() - 1].3.get());
     }
+}
+proof fn pop_order_part<S>(ev: Ev, p: Seq<Job<S>>)
+    requires p.len() > 0, eval_order_ok(ev, p)
+    ensures eval_order_ok(ev, p.drop_last()), ev_below(ev, p.last().3.get() as int)
+{
+    reveal(eval_order_ok); reveal(ev_below);
+    let q = p.drop_last();
+    assert(p.last() == p[p.len() - 1]);
     assert forall|a: int, j: int| 0 <= a < ev.len() && 0 <= j < q.len() implies (#[trigger] ev[a]).1 <= (#[trigger] q[j]).3.get() by {
         assert(q[j] == p[j]);
     }
+    assert forall|n: int| 0 <= n < ev.len() implies (#[trigger] ev[n]).1 <= p[p.len() - 1].3.get() by {}
+}
+proof fn pop_overflow_part<S>(p: Seq<Job<S>>, b: int)
+    requires p.len() > 0, overflow_ok(p, b)
+    ensures overflow_ok(p.drop_last(), b), p.last().3.get() + b < usize::MAX
+{
+    reveal(overflow_ok);
+    let q = p.drop_last();
+    assert(p.last() == p[p.len() - 1]);
+    assert(p[p.len() - 1].3.get() + b < usize::MAX);
     assert forall|j: int| 0 <= j < q.len() implies (#[trigger] q[j]).3.get() + b < usize::MAX by { assert(q[j] == p[j]); }
 }
 
